@@ -1,6 +1,7 @@
 package track
 
 import (
+	"runtime/debug"
 	"strings"
 	"testing"
 )
@@ -31,4 +32,57 @@ func TestBasics(t *testing.T) {
 			t.Errorf("missing %s in %v", k, vs)
 		}
 	}
+}
+
+var sink byte
+
+func TestGuard(t *testing.T) {
+	tr := New(Pooled)
+	if !tr.EnableGuard() {
+		t.Skip("guard arena unavailable")
+	}
+	defer tr.Release()
+	a := tr.Malloc(10)
+	copy(*a, "0123456789")
+	view := *a
+	b := tr.Malloc(5000)
+	(*b)[4999] = 1
+	tr.Free(a)
+	debug.SetPanicOnFault(true)
+	defer debug.SetPanicOnFault(false)
+	var addr uintptr
+	func() {
+		defer func() {
+			if x := recover(); x != nil {
+				if e, ok := x.(interface{ Addr() uintptr }); ok {
+					addr = e.Addr()
+				}
+			}
+		}()
+		sink = view[3]
+	}()
+	if addr == 0 {
+		t.Fatal("no fault on a read of a freed buffer")
+	}
+	if !tr.Fault(addr, "test") {
+		t.Fatal("fault address not recognised")
+	}
+	vs := tr.Violations()
+	if len(vs) != 1 || vs[0].Kind != "access-after-free" {
+		t.Fatalf("%v", vs)
+	}
+	if (*b)[4999] != 1 {
+		t.Fatal("live buffer damaged")
+	}
+	tr.Free(b)
+	tr.Release()
+	tr2 := New(Exact)
+	if !tr2.EnableGuard() {
+		t.Fatal("arena not released")
+	}
+	c := tr2.Malloc(3)
+	if (*c)[0] != 0 {
+		t.Fatal("not zero")
+	}
+	tr2.Release()
 }
